@@ -226,6 +226,11 @@ func (c *Config) NewServer(
 	realIP := newRealIPMiddleware(logger, c.TrustedProxies, c.RealIPHeaderKey)
 	basePath := "/"
 	if c.SecretPath != "" {
+		// The secret path becomes part of [http.ServeMux] patterns, where braces denote wildcards.
+		// A malformed wildcard would make [http.ServeMux.Handle] panic.
+		if strings.ContainsAny(c.SecretPath, "{}") {
+			return nil, fmt.Errorf("secret path %q must not contain '{' or '}'", c.SecretPath)
+		}
 		basePath = joinPatternPath(basePath, c.SecretPath)
 	}
 
